@@ -90,7 +90,7 @@ func (pnf *PrevNextFinder) FindOutlink(root *html.Node, pageURL *nurl.URL, findN
 	// nothing to find unless the page URL is the address of a web page. With a
 	// relative URL, a host-less URL or another scheme the "allowed prefix" below
 	// would match links that can't be fetched (e.g. /story/page/2).
-	if (pageURL.Scheme != "http" && pageURL.Scheme != "https") || pageURL.Host == "" {
+	if (pageURL.Scheme != "http" && pageURL.Scheme != "https") || pageURL.Hostname() == "" {
 		return ""
 	}
 
